@@ -160,6 +160,20 @@ def seeded(args):
             if p.returncode != 0:
                 rows.append((name, "patch does not apply: " + p.stdout.decode()[-200:]))
                 continue
+            ok, tail = run_tests(d)
+            rows.append((name, "baseline tests with the patch: %s (%s)" % ("pass" if ok else "FAIL", tail[:60])))
+            demo = os.path.join(base, name, "demo.py")
+            if os.path.exists(demo):
+                shutil.copy(demo, os.path.join(d, "demo.py"))
+                env = dict(os.environ, PYTHONPATH=d, PYTHONDONTWRITEBYTECODE="1")
+                r1 = subprocess.run(["/venv/bin/python", "demo.py"] + meta.get("demo_args", []), cwd=d, env=env, stdout=subprocess.PIPE, stderr=subprocess.STDOUT).returncode
+                d0 = make_copy()
+                try:
+                    shutil.copy(demo, os.path.join(d0, "demo.py"))
+                    r0 = subprocess.run(["/venv/bin/python", "demo.py"] + meta.get("demo_args", []), cwd=d0, env=dict(env, PYTHONPATH=d0), stdout=subprocess.PIPE, stderr=subprocess.STDOUT).returncode
+                finally:
+                    shutil.rmtree(d0, ignore_errors=True)
+                rows.append((name, "demo.py: exit %d with the patch, exit %d without -> %s" % (r1, r0, "confirmed" if r1 != 0 and r0 == 0 else "NOT CONFIRMED")))
             out = os.path.join(d, "_out")
             for pid in meta.get("checks", [meta.get("property")]):
                 for tier in meta.get("tiers", ["quick"]):
